@@ -128,7 +128,24 @@ func ruleQuasiquoteFresh(c *Ctx, rule string) {
 				}
 				return true
 			})
-			c.Ob(rule, key, lit, len(bad) == 0, fmt.Sprintf("the closure modifies only trees it created in this execution (%d Set/Append calls); writes to captured trees: %v", mutations, bad))
+			// what the closure returns was built in this execution: a captured xreflect.Value handed out as it is would give
+			// every evaluation the same tree
+			ast.Inspect(lit.Body, func(m ast.Node) bool {
+				if _, nested := m.(*ast.FuncLit); nested {
+					return false
+				}
+				if r, ok := m.(*ast.ReturnStmt); ok {
+					for _, e := range r.Results {
+						if id := identOf(e); id != nil {
+							if o, isVar := info.Uses[id].(*types.Var); isVar && !o.IsField() && isReflectValue(o.Type()) && !(o.Pos() > lit.Pos() && o.Pos() < lit.End()) {
+								bad = append(bad, "return "+id.Name+" (captured)")
+							}
+						}
+					}
+				}
+				return true
+			})
+			c.Ob(rule, key, lit, len(bad) == 0, fmt.Sprintf("the closure modifies only trees it created in this execution (%d Set/Append calls) and returns none it captured; offending: %v", mutations, bad))
 			return false
 		})
 	}
@@ -742,6 +759,7 @@ func init() {
 		}},
 		Technique: "AST/type-resolved custom analysis: ownership of mutated nodes inside run-time closures, extraction and comparison of the depth tables of two sibling implementations, loop-shape checks, sibling agreement of two chain walks",
 		Mutants: []Mutant{
+			{Name: "quasiquote-leaf-shared-between-evaluations", File: "fast/quasiquote.go", Old: "\tif n == 0 {\n\t\treturn exprX1(typ, func(env *Env) xr.Value {\n\t\t\treturn xr.ValueOf(form.New().Interface()).Convert(rtype)\n\t\t}), false", New: "\tif n == 0 {\n\t\tret := xr.ValueOf(form.Interface()).Convert(rtype)\n\t\treturn exprX1(typ, func(env *Env) xr.Value {\n\t\t\treturn ret\n\t\t}), false"},
 			{Name: "template-reused-across-evaluations", File: "fast/quasiquote.go", Old: "\t\treturn exprX1(typ, func(env *Env) xr.Value {\n\t\t\tout := form.New().(AstWithSlice)\n", New: "\t\treturn exprX1(typ, func(env *Env) xr.Value {\n\t\t\tout := form\n", Canary: true},
 			{Name: "unquote-splice-does-not-lift", File: "fast/quasiquote.go", Old: "} else if op == etoken.UNQUOTE || op == etoken.UNQUOTE_SPLICE {\n\t\t\t\tdepth--", New: "} else if op == etoken.UNQUOTE {\n\t\t\t\tdepth--", Canary: true},
 			{Name: "classic-unquote-evaluated-one-level-early", File: "classic/quasiquote.go", Old: "\t\t\t\tif depth <= 1 {\n\t\t\t\t\ty := env.evalUnquote(in)", New: "\t\t\t\tif depth <= 2 {\n\t\t\t\t\ty := env.evalUnquote(in)"},
